@@ -38,6 +38,10 @@ func (in *Interp) fieldTypeTable() []types.Type {
 	}
 }
 
+// liteTypes: the field types of the pair mode (indexes into fieldTypeTable): string, int,
+// []string. Must agree with vLiteTypes in the native runtime.
+var liteTypes = []int{0, 1, 8}
+
 func (in *Interp) tagString(name string, lo, hi int) Str {
 	b := in.nondetBytes(name, lo, hi, "str")
 	c := in.Ctx
@@ -71,8 +75,17 @@ func init() {
 			in.Path.ndNames = map[string]bool{}
 		}
 		desc := &SymStruct{Name: ""}
+		// maxFields < 0: "pair" mode: a valid ID field (string, api "t", json "id"), exactly
+		// -maxFields fields, field types from a short list (liteTypes)
+		lite := maxF < 0
+		if lite {
+			desc.Fields = append(desc.Fields, SymField{Name: "ID", T: tbl[0], HasAPI: true, API: Str{S: "t"}, HasJSON: true, JSON: Str{S: "id"}})
+		}
 		// ID field: 0 absent, 1 string, 2 int, 3 a named string type
-		idKind := choice(tag+".idkind", 4)
+		idKind := 0
+		if !lite {
+			idKind = choice(tag+".idkind", 4)
+		}
 		if idKind > 0 {
 			f := SymField{Name: "ID", T: tbl[0]}
 			if idKind == 2 {
@@ -97,10 +110,19 @@ func init() {
 			}
 			desc.Fields = append(desc.Fields, f)
 		}
-		nf := choice(tag+".nfields", maxF+1)
+		nf := -maxF
+		if !lite {
+			nf = choice(tag+".nfields", maxF+1)
+		}
 		for i := 0; i < nf; i++ {
 			p := fmt.Sprintf("%s.f%d", tag, i)
-			f := SymField{Name: fmt.Sprintf("F%d", i), T: tbl[choice(p+".type", len(tbl))]}
+			var ft types.Type
+			if lite {
+				ft = tbl[liteTypes[choice(p+".type", len(liteTypes))]]
+			} else {
+				ft = tbl[choice(p+".type", len(tbl))]
+			}
+			f := SymField{Name: fmt.Sprintf("F%d", i), T: ft}
 			// api tag families
 			switch choice(p+".api", 8) {
 			case 0: // absent
